@@ -234,7 +234,7 @@ func runKillCase(t fataler, vh, script string, nLeaves int, killTimeout time.Dur
 	r2 := filepath.Join(dir, "ready2")
 	script = strings.ReplaceAll(strings.ReplaceAll(script, "@MARKER@", m1), "@READY@", r1)
 	defs := &definition.PipelinesDef{Pipelines: definition.PipelinesMap{
-		"victim":    {Concurrency: 1, SourcePath: "gen", Tasks: map[string]definition.TaskDef{"tree": {Script: []string{script}}}},
+		"victim":    {Concurrency: 2, SourcePath: "gen", Tasks: map[string]definition.TaskDef{"tree": {Script: []string{script}}}},
 		"bystander": {Concurrency: 1, SourcePath: "gen", Tasks: map[string]definition.TaskDef{"tree": {Script: []string{fmt.Sprintf("sh -c %s", shq(fmt.Sprintf("%s hang %s --ready %s --for 25s & %s hang %s --ready %s --for 25s", vh, m2, r2, vh, m2, r2)))}}}},
 	}}
 	w := newRealWorld(t, defs, killTimeout)
@@ -250,6 +250,16 @@ func runKillCase(t fataler, vh, script string, nLeaves int, killTimeout time.Dur
 	job, err := w.pr.ScheduleAsync("victim", prunner.ScheduleOpts{})
 	if err != nil {
 		t.Fatalf("schedule: %v", err)
+	}
+	// a forced shutdown ends every running job, also two of the same pipeline
+	var job2ID *uuid.UUID
+	if viaShutdown {
+		j2, err := w.pr.ScheduleAsync("victim", prunner.ScheduleOpts{})
+		if err != nil {
+			t.Fatalf("schedule: %v", err)
+		}
+		job2ID = &j2.ID
+		nLeaves *= 2
 	}
 	deadline := time.Now().Add(10 * time.Second)
 	for readyCount(r2) < 2 && time.Now().Before(deadline) {
@@ -272,6 +282,12 @@ func runKillCase(t fataler, vh, script string, nLeaves int, killTimeout time.Dur
 		t.Fatalf("cancel: %v", err)
 	}
 	v, ok := w.waitDone(job.ID, killTimeout+20*time.Second)
+	if ok && job2ID != nil {
+		var v2 jobView
+		if v2, ok = w.waitDone(*job2ID, killTimeout+20*time.Second); ok && !v2.Canceled {
+			v = v2
+		}
+	}
 	tReport := time.Now()
 	res.view = v
 	if !ok {
@@ -302,7 +318,7 @@ const lingerAllowance = 250 * time.Millisecond
 
 // TestC20: canceling a job leaves no process of its tasks behind.
 func TestC20(t *testing.T) {
-	col := ev.Get("C20", "trees", "process trees from a grammar over 'vhelper hang' (leaf | sh -c with foreground/background children | pipeline | subshell | interpreter-level background command | a command that returns at once and leaves detached children behind, followed by another; leaves may ignore the interrupt and/or redirect their output away from the task's pipe; depth <= 4), run as a task of a real job next to a bystander job; kill timeout 450-700 ms; cancel (or forced shutdown) at a generated instant, also before the whole tree is up; oracle from /proc after the job is reported finished: no non-zombie process carrying the job's marker is alive (250 ms allowance), report - cancel <= kill timeout + 1.5 s, the bystander's processes are all alive; shapes of the two recorded findings are excluded by construction (counted) and exercised separately; non-trivial = depth >= 2 or a background/pipeline/ignore-int element; distinct by tree shape x cancel phase")
+	col := ev.Get("C20", "trees", "process trees from a grammar over 'vhelper hang' (leaf | sh -c with foreground/background children | pipeline | subshell | interpreter-level background command | a command that returns at once and leaves detached children behind, followed by another; leaves may ignore the interrupt and/or redirect their output away from the task's pipe; depth <= 4), run as a task of a real job next to a bystander job; kill timeout 450-700 ms (1.0-1.6 s in a fifth of the cases); cancel (or forced shutdown, then with two jobs of the pipeline running the same tree) at a generated instant, also before the whole tree is up; oracle from /proc after the job is reported finished: no non-zombie process carrying the job's marker is alive (250 ms allowance), report - cancel <= kill timeout + 1.5 s, the bystander's processes are all alive; shapes of the two recorded findings are excluded by construction (counted) and exercised separately; non-trivial = depth >= 2 or a background/pipeline/ignore-int element; distinct by tree shape x cancel phase")
 	vh := helper(t)
 	// the two recorded findings, exercised deterministically
 	for _, kf := range knownFindings(vh) {
@@ -379,6 +395,11 @@ func TestC20(t *testing.T) {
 			}
 		}
 		killTimeout := time.Duration(rapid.IntRange(450, 700).Draw(rt, "killTimeoutMs")) * time.Millisecond
+		if rapid.IntRange(0, 4).Draw(rt, "longKillTimeout") == 0 {
+			// (a longer one now and then: whatever reports the job finished must wait for it, not for a
+			// period of its own)
+			killTimeout = time.Duration(rapid.IntRange(1000, 1600).Draw(rt, "longKillTimeoutMs")) * time.Millisecond
+		}
 		early := rapid.IntRange(0, 3).Draw(rt, "cancelEarly") == 0
 		for _, l := range leaves {
 			// A background child of sh starts with the interrupt ignored and restores the default action itself:
